@@ -80,5 +80,6 @@ func (as *AppStats) DumpStats() *AppStats {
 }
 
 func resetUint64(ref *uint64) (val uint64) {
+	verifYield("stats.reset")
 	return atomic.SwapUint64(ref, 0)
 }
